@@ -35,13 +35,14 @@ theorem frame_truncate (below rest : Array Value) : (below ++ rest).extract 0 be
 
 /-- the machine `s0` in the frame `below ++ locs ++ ops` (base pointer = `below.size`) with suspended callers `fr` -/
 def mkS (s0 : VM) (ip : Nat) (below locs ops g : Array Value) (l : Value) (fr : List Frame) : VM :=
-  { s0 with ip := ip, stack := below ++ locs ++ ops, globals := g, last := l, frames := fr, bp := below.size }
+  { s0 with ip := ip, stack := below ++ locs ++ ops, globals := g, last := l, frames := fr, depth := fr.length, bp := below.size }
 
 @[simp] theorem mkS_ip (s0 ip below locs ops g l fr) : (mkS s0 ip below locs ops g l fr).ip = ip := rfl
 @[simp] theorem mkS_stack (s0 ip below locs ops g l fr) : (mkS s0 ip below locs ops g l fr).stack = below ++ locs ++ ops := rfl
 @[simp] theorem mkS_globals (s0 ip below locs ops g l fr) : (mkS s0 ip below locs ops g l fr).globals = g := rfl
 @[simp] theorem mkS_last (s0 ip below locs ops g l fr) : (mkS s0 ip below locs ops g l fr).last = l := rfl
 @[simp] theorem mkS_frames (s0 ip below locs ops g l fr) : (mkS s0 ip below locs ops g l fr).frames = fr := rfl
+@[simp] theorem mkS_depth (s0 ip below locs ops g l fr) : (mkS s0 ip below locs ops g l fr).depth = fr.length := rfl
 @[simp] theorem mkS_bp (s0 ip below locs ops g l fr) : (mkS s0 ip below locs ops g l fr).bp = below.size := rfl
 @[simp] theorem mkS_cvals (s0 ip below locs ops g l fr) : (mkS s0 ip below locs ops g l fr).cvals = s0.cvals := rfl
 @[simp] theorem mkS_mem (s0 ip below locs ops g l fr) : (mkS s0 ip below locs ops g l fr).mem = s0.mem := rfl
